@@ -11,14 +11,16 @@
   points()."
 
   All thin-line claims are proved for all end points (unbounded integers). Of the stroked-line
-  sentence only the last claim is a theorem; the others are:
-  -- [V] a stroked line of width w contains the thin line: carried by correspondence + oracle only
+  sentence "for width 1 equals points()" (`thick_width1_eq_points`) and "contains the thin line"
+  (`thick_contains_thin`: the centre line is the first parallel emitted, for every width) are
+  theorems; the others are:
   -- [V] a stroked line yields no pixel twice: carried by correspondence + oracle only
   -- [V] a stroked line stays within w/2 + 2.5 pixels of the ideal line: carried by correspondence + oracle only
   -- [V] a stroked line stays within one pixel of the segment's two ends: carried by correspondence + oracle only
   -- [V] a stroked line is at least w - 1 pixels wide at its middle: carried by correspondence + oracle only
 -/
 import EG.Lemmas.LineProps
+import EG.Lemmas.ThickWidth1
 namespace EG.C17
 open EG EG.Line
 
@@ -96,8 +98,34 @@ theorem line_points_in_box (l : Line) (p : Pt) (hp : p ∈ points l) :
   obtain ⟨k, hk, rfl⟩ := mem_points.mp hp
   exact ptAt_in_box l k hk
 
+example : (⟨2, 3⟩ : Pt) ∈ points ⟨⟨5, 4⟩, ⟨1, 2⟩⟩ := by decide
+
 /-- `points()` commutes with translation (used by C07). -/
 theorem line_points_translate (l : Line) (d : Pt) :
     points (l.translate d) = (points l).map (· + d) := Line.points_translate l d
+
+/-! ## Stroked lines (`Thick.thickPoints l w` = the points of
+`Line::new(s, e).into_styled(PrimitiveStyle::with_stroke(c, w)).pixels()` in emission order;
+`none` would mean that a loop bound of the model was exceeded, see EG/Model/ThickLine.lean) -/
+
+/-- For width 1 the stroked line equals `points()` (same points, same order). -/
+theorem thick_width1_eq_points (l : Line) : Thick.thickPoints l 1 = some (points l) :=
+  Thick.thickPoints_width1 l
+
+/-- A stroked line of width `w ≥ 1` contains the thin line: its pixel sequence starts with
+`points()`. (`w ≤ i32::MAX`: `stroke_width.saturating_as::<i32>()` is the identity.) -/
+theorem thick_contains_thin (l : Line) (w : Nat) (hw : 1 ≤ w) (hw2 : w ≤ 2147483647)
+    (ps : List Pt) (h : Thick.thickPoints l w = some ps) :
+    (∃ more, ps = points l ++ more) ∧ ∀ p ∈ points l, p ∈ ps := by
+  obtain ⟨more, hm⟩ := Thick.thickPoints_prefix l w hw hw2 ps h
+  exact ⟨⟨more, hm⟩, fun p hp => by rw [hm]; exact List.mem_append_left _ hp⟩
+
+/-- Stroke width 0 draws nothing. -/
+theorem thick_width0_empty (l : Line) : Thick.thickPoints l 0 = some [] :=
+  Thick.thickPoints_width0 l
+
+example : Thick.thickPoints ⟨⟨2, 2⟩, ⟨6, 4⟩⟩ 3 =
+    some [⟨2, 2⟩, ⟨3, 2⟩, ⟨4, 3⟩, ⟨5, 3⟩, ⟨6, 4⟩, ⟨2, 1⟩, ⟨3, 1⟩, ⟨4, 2⟩, ⟨5, 2⟩, ⟨6, 3⟩,
+          ⟨2, 3⟩, ⟨3, 3⟩, ⟨4, 4⟩, ⟨5, 4⟩, ⟨3, 0⟩, ⟨4, 1⟩, ⟨5, 1⟩, ⟨6, 2⟩, ⟨7, 2⟩] := by decide
 
 end EG.C17
